@@ -206,6 +206,26 @@ def run(tier, t0):
                 res.violation('C14.3', 'C14.3|selector', cl, s.get('line'), 'requesting_thread is written on a path that did not establish <exception thread id>.or(<breakpad requesting thread id>) == Some(id): %s' % f[:4])
             if not skip or not all(v is False for v in skip):
                 res.violation('C14.3', 'C14.3|dump-thread', cl, s.get('line'), 'requesting_thread can be written for the dump-writer thread (no dump_thread_id == Some(id) early return on this path)')
+    # every thread that is not the dump writer reaches the requesting-thread decision: no other early exit of the closure
+    # may come before it (such a thread could never be reported as the requesting thread nor start from the exception context)
+    for b in sorted(cl.reach):
+        if cl.blocks[b]['t']['k'] != 'return':
+            continue
+        n3 += 1
+        for facts, env_ in ex.states.get(b, ()):
+            sel, skip = [], []
+            for cnd, v in facts:
+                if not (cnd[0] == 'call' and EQ in cnd[1] and len(cnd) == 4 and show(cnd[3]) == '(adt std::option::Option::Some id)'):
+                    continue
+                lhs = show(resolve_upvars(cl, cl.expand(cnd[2]), up_env))
+                if lhs == SELECTOR:
+                    sel.append(v)
+                elif lhs == 'self.dump_thread_id':
+                    skip.append(v)
+            if not sel and not any(v is True for v in skip):
+                others = sorted(show(cnd)[:100] for cnd, v in facts if not (cnd[0] == 'call' and EQ in cnd[1]))
+                res.violation('C14.3', 'C14.3|undecided-exit', cl, cl.line, 'the per-thread closure can return for a thread that is not the dump writer without deciding whether it is the requesting thread (path conditions: %s)' % others[:3])
+                break
     if not writes:
         res.error('C14.3', 'no write of requesting_thread in the mapping closure')
     # `id` is the item's thread id
